@@ -7,8 +7,12 @@ A transition system, not a function: workers and the collecting parent take step
   (`todo`: its records in batch order, then the sentinel `None`), the messages handed to the queue's feeder thread but not
   yet written to the pipe (`buf`), and its process state;
 * `chan` is the pipe of the shared `mp.Queue` (FIFO);
-* the parent is at `queue.get(timeout)` (`atGet`), has just caught `queue.Empty` (`afterEmpty`), has left the loop because
-  all sentinels arrived (`done`), or has called `sys.exit(1)` (`failed`).
+* the parent is at `queue.get(timeout)` (`atGet`), is inside the `except queue.Empty` handler about to evaluate the next of
+  its predicates (`eval p`: `p` is the rest of the handler as a decision program), has left the loop because all sentinels
+  arrived (`done`), has called `sys.exit(1)` (`failed`), or has taken an action the protocol has no transition for (`stuck`).
+  The handler is NOT evaluated atomically: `one_failed(processes)`, `one_is_alive(processes)`, `all_exited(processes)` are
+  separate polls, and workers may move between them (each single poll is atomic: a worker only ever goes from running to
+  exited, so a loop over the processes returns what an atomic evaluation at some moment of its execution returns).
 
 Modelled, not verified (multiprocessing runtime): `get(timeout)` raises `Empty` only when nothing is readable; a process
 that exits normally has flushed its feeder; `put`/flush/`get` are atomic with respect to a worker's death.
@@ -31,8 +35,33 @@ structure Worker where
   st : WSt
 deriving DecidableEq, Repr
 
+/-- the predicates the handler polls -/
+inductive Pred where
+  | failed      -- one_failed(processes)
+  | alive       -- one_is_alive(processes)
+  | exited      -- all_exited(processes)
+  | allAlive    -- all_are_alive(processes)
+deriving DecidableEq, Repr
+
+/-- how a path through the handler ends -/
+inductive Act where
+  | exit1 | exit0 | cont | brk | fall
+deriving DecidableEq, Repr
+
+/-- the `except queue.Empty` handler as a decision program: poll a predicate, go on with one of two rests, or act
+    (`and` / `or` / `not` of the source are short-circuit evaluation, i.e. nested polls in source order) -/
+inductive Prog where
+  | leaf (a : Act)
+  | test (p : Pred) (yes no : Prog)
+deriving DecidableEq, Repr
+
+/-- the handler of `realign_gaf` (both copies of the collector loop):
+    `if one_failed: stop_all; exit(1)` / `if one_is_alive: continue` / `else: if not all_exited: exit(1)` / `continue` -/
+def refHandler : Prog :=
+  .test .failed (.leaf .exit1) (.test .alive (.leaf .cont) (.test .exited (.leaf .cont) (.leaf .exit1)))
+
 inductive PC where
-  | atGet | afterEmpty | done | failed
+  | atGet | eval (p : Prog) | done | failed | stuck
 deriving DecidableEq, Repr
 
 structure St where
@@ -50,7 +79,7 @@ inductive Ev where
   | wDie (i : Nat) (code : Int)    -- abnormal termination at any point: undelivered messages are lost
   | pGet                           -- queue.get returns the head of the pipe
   | pTimeout                       -- queue.get raises Empty (only when the pipe is empty)
-  | pCheck                         -- one_failed / one_is_alive / all_exited after Empty
+  | pCheck                         -- ONE poll of the handler: the predicate at the head of the rest of the handler
 deriving DecidableEq, Repr
 
 def updW (ws : List Worker) (i : Nat) (w : Worker) : List Worker := ws.set i w
@@ -63,12 +92,27 @@ def receive (s : St) (m : Msg) : St :=
   if s'.nSent = s'.ws.length then { s' with pc := .done } else { s' with pc := .atGet }
 
 def anyRunning (s : St) : Bool := s.ws.any (fun w => w.st == .running)
+def allRunning (s : St) : Bool := s.ws.all (fun w => w.st == .running)
 def allExitedZero (s : St) : Bool := s.ws.all (fun w => w.st == .exited 0)
 /-- `one_failed`: some process has exited with a non-zero status -/
 def anyFailed (s : St) : Bool := s.ws.any (fun w => match w.st with | .exited c => c != 0 | .running => false)
 
-/-- one event; an event that is not enabled leaves the state unchanged (stutter) -/
-def step (s : St) : Ev → St
+/-- one poll, on the workers' states as they are now -/
+def evalPred (s : St) : Pred → Bool
+  | .failed => anyFailed s
+  | .alive => anyRunning s
+  | .exited => allExitedZero s
+  | .allAlive => allRunning s
+
+/-- the parent arrives at the rest `p` of the handler: act if it is a leaf, else wait to poll -/
+def enter (s : St) : Prog → St
+  | .leaf .exit1 => { s with pc := .failed }      -- stop_all(processes); sys.exit(1)
+  | .leaf .cont => { s with pc := .atGet }        -- continue: back to queue.get
+  | .leaf _ => { s with pc := .stuck }            -- exit status 0, break, or falling out of the handler: not part of the protocol
+  | .test p y n => { s with pc := .eval (.test p y n) }
+
+/-- one event under handler `h`; an event that is not enabled leaves the state unchanged (stutter) -/
+def stepH (h : Prog) (s : St) : Ev → St
   | .wPut i => match s.ws[i]? with
       | some ⟨m :: t, b, .running⟩ => { s with ws := updW s.ws i ⟨t, b ++ [m], .running⟩ }
       | _ => s
@@ -85,15 +129,16 @@ def step (s : St) : Ev → St
       | .atGet, m :: c => receive { s with chan := c } m
       | _, _ => s
   | .pTimeout => match s.pc, s.chan with
-      | .atGet, [] => { s with pc := .afterEmpty }
+      | .atGet, [] => enter s h                    -- queue.Empty: into the handler
       | _, _ => s
   | .pCheck => match s.pc with
-      | .afterEmpty =>
-          if anyFailed s then { s with pc := .failed }            -- one_failed: stop the others, sys.exit(1) (the fix of K3)
-          else if anyRunning s then { s with pc := .atGet }       -- continue
-          else if !allExitedZero s then { s with pc := .failed }  -- sys.exit(1) (unreachable after the first test)
-          else { s with pc := .atGet }                            -- continue (the fix of D17)
+      | .eval (.test p y n) => enter s (if evalPred s p then y else n)
       | _ => s
+
+/-- the protocol of the code that exists -/
+def step (s : St) (e : Ev) : St := stepH refHandler s e
+
+def runH (h : Prog) (s : St) (es : List Ev) : St := es.foldl (stepH h) s
 
 def run (s : St) (es : List Ev) : St := es.foldl step s
 
